@@ -997,6 +997,13 @@ func (g *pgen) escape(inClass bool) string {
 	}
 	g.lits = append(g.lits, e.ch, e.ch)
 	g.usedEsc = true
+	if e.src[1] >= '0' && e.src[1] <= '9' {
+		// keep a following digit from extending an octal escape / turning \0 into one
+		if inClass {
+			return e.src + `\x2e`
+		}
+		return `(?:` + e.src + `)`
+	}
 	return e.src
 }
 
